@@ -88,7 +88,10 @@ func perft(pos *board.Position, turn board.Color, depth int) int {
 // C02: every pseudo-legal move of generated positions with the full successor (all words), and the
 // origin position re-dumped afterwards (must be untouched).
 func casesMove(c *caseCtx) {
-	for _, s := range genStates(c, c.scale(400, 8000)) {
+	for i, s := range genStates(c, c.scale(400, 8000)) {
+		if i%7 == 0 {
+			restrictedQueries(s)
+		}
 		before := posTok(s.pos)
 		for _, m := range s.pos.PseudoLegalMoves(s.turn) {
 			next, ok := s.pos.Move(m)
@@ -109,6 +112,35 @@ func casesMove(c *caseCtx) {
 		last := sts[len(sts)-1]
 		emitQueries(c, last)
 		emitMovegen(c, last)
+	}
+	// positions are values also when they come from a game board: played, taken back, forked and played
+	// again, every position once obtained still reads what it read (monitor inside the script)
+	zt := board.NewZobristTable(0)
+	for g := 0; g < c.scale(40, 800); g++ {
+		randomScript(c, zt, 0, curatedFENs[c.r.Intn(len(curatedFENs))], 30+c.r.Intn(60)).checkSeen()
+	}
+	fmt.Printf("COUNT position-values %d\n", c.scale(40, 800))
+}
+
+// restrictedQueries asks "attacked by one of these kinds" with piece lists built the usual way, by
+// appending to the exported lists; the answer must equal the one for a literal list, and (checked by the
+// queries that follow) asking must not change what later queries say.
+func restrictedQueries(s state) {
+	lists := [][2][]board.Piece{
+		{append(board.KingQueen, board.Knight), {board.King, board.Queen, board.Knight}},
+		{append(board.KingQueen, board.Pawn), {board.King, board.Queen, board.Pawn}},
+		{append(board.QueenRookKnightBishop, board.Pawn), {board.Queen, board.Rook, board.Knight, board.Bishop, board.Pawn}},
+		{append(board.KingQueenRookKnightBishop, board.Pawn), {board.King, board.Queen, board.Rook, board.Knight, board.Bishop, board.Pawn}},
+	}
+	for _, col := range []board.Color{board.White, board.Black} {
+		for sq := board.ZeroSquare; sq < board.NumSquares; sq += 5 {
+			for _, l := range lists {
+				if a, b := s.pos.IsAttackedBy(col, sq, l[0]), s.pos.IsAttackedBy(col, sq, l[1]); a != b {
+					fmt.Printf("IMPLVIOL queries %s %d :: IsAttackedBy(%v, %v, appended list %v) = %v but %v for the literal list prop=C06 key=restricted-query\n", posTok(s.pos), s.turn, col, sq, l[1], a, b)
+					return
+				}
+			}
+		}
 	}
 }
 
@@ -211,7 +243,10 @@ func casesAttacks(c *caseCtx) {
 		col := board.Color(c.r.Intn(2))
 		c.emit("pawnboards %d %x %x => %x %x", col, uint64(pawns), uint64(all), uint64(board.PawnCaptureboard(col, pawns)), uint64(board.PawnMoveboard(all, col, pawns)))
 	}
-	for _, s := range genStates(c, c.scale(600, 12000)) {
+	for i, s := range genStates(c, c.scale(600, 12000)) {
+		if i%9 == 0 {
+			restrictedQueries(s) // asking with a restricted piece list must not change later answers
+		}
 		emitQueries(c, s)
 	}
 	// eval.FindCapture / eval.FindPins
